@@ -1,0 +1,53 @@
+//go:build verif
+
+package gortsplib
+
+// Read-only snapshots of the server's resource tables for the verification harness
+// (property C11: everything tied to an ended connection is released).  Build tag "verif"
+// only; nothing here changes behaviour.  The counts of the server's own maps are read
+// without synchronisation (len() of a map is a plain field read): callers poll them at
+// quiescent points and never iterate.
+
+// VerifLedger is a snapshot of the resource tables of a Server.
+type VerifLedger struct {
+	Conns            int // len(s.conns)
+	HTTPReadChannels int // len(s.httpReadChannels)
+	Sessions         int // len(s.sessions)
+	UDPRTPClients    int // len(s.udpRTPListener.clients), -1 without UDP listeners
+	UDPRTCPClients   int // len(s.udpRTCPListener.clients), -1 without UDP listeners
+}
+
+func verifUDPClients(u *serverUDPListener) int {
+	if u == nil {
+		return -1
+	}
+	u.clientsMutex.RLock()
+	defer u.clientsMutex.RUnlock()
+	return len(u.clients)
+}
+
+// VerifLedger returns the sizes of the server's connection, session and UDP client tables.
+func (s *Server) VerifLedger() VerifLedger {
+	return VerifLedger{
+		Conns:            len(s.conns),
+		HTTPReadChannels: len(s.httpReadChannels),
+		Sessions:         len(s.sessions),
+		UDPRTPClients:    verifUDPClients(s.udpRTPListener),
+		UDPRTCPClients:   verifUDPClients(s.udpRTCPListener),
+	}
+}
+
+// VerifUDPPorts returns the ports of the server's UDP listeners (0, 0 without UDP).
+func (s *Server) VerifUDPPorts() (int, int) {
+	if s.udpRTPListener == nil {
+		return 0, 0
+	}
+	return s.udpRTPListener.port(), s.udpRTCPListener.port()
+}
+
+// VerifReaders returns len(st.readers), len(st.activeUnicastReaders) and st.multicastReaderCount.
+func (st *ServerStream) VerifReaders() (int, int, int) {
+	st.mutex.RLock()
+	defer st.mutex.RUnlock()
+	return len(st.readers), len(st.activeUnicastReaders), st.multicastReaderCount
+}
